@@ -77,8 +77,11 @@ pub fn gen_mc_sys(ctx: &mut Context, rng: &mut Rng, cfg: &McCfg, stats: &mut Sta
     let mut state_syms: Vec<ExprRef> = vec![];
     let mut bits = 0u32;
     let n_states = rng.range(1, 3);
+    let mut last_w: Option<WidthInt> = None;
     for k in 0..n_states {
-        let w = *rng.pick(&widths);
+        // often the same width as the previous state: delay registers / comparisons between states
+        let w = match last_w { Some(lw) if rng.chance(1, 3) => lw, _ => *rng.pick(&widths) };
+        last_w = Some(w);
         if bits + w > cfg.max_state_bits && k > 0 {
             break;
         }
@@ -167,6 +170,8 @@ pub fn gen_mc_sys(ctx: &mut Context, rng: &mut Rng, cfg: &McCfg, stats: &mut Sta
     // ---- states
     let later_state_read = cfg.init_reads_later && state_syms.len() > 1 && rng.chance(1, 25);
     let mut counter: Option<(ExprRef, WidthInt)> = None;
+    // (delayed state, source expression)
+    let mut delay: Option<(ExprRef, ExprRef)> = None;
     for (k, s) in state_syms.iter().enumerate() {
         let tpe = s.get_type(ctx);
         // counter pattern: deep counterexamples
@@ -200,6 +205,27 @@ pub fn gen_mc_sys(ctx: &mut Context, rng: &mut Rng, cfg: &McCfg, stats: &mut Sta
                 let init = if rng.chance(1, 2) { Some(ctx.get_false()) } else { None };
                 sys.add_state(ctx, State { symbol: *s, init, next: Some(cmp) });
                 features.push("delay-latch");
+                continue;
+            }
+        }
+        // delay register: init and next are the SAME non-constant expression - an earlier state of the
+        // same type (prev follows cnt with one step delay and starts equal to it), or an expression
+        // over the inputs.  The state is NOT constant although next == init.
+        let earlier: Vec<ExprRef> = state_syms[..k].iter().copied().filter(|x| x.get_type(ctx) == tpe).collect();
+        if delay.is_none() && rng.chance(if earlier.is_empty() { 1 } else { 3 }, 8) {
+            let src = if !earlier.is_empty() {
+                // prefer the counter: its value changes at every step
+                match counter { Some((c, _)) if earlier.contains(&c) => Some(c), _ => Some(*rng.pick(&earlier)) }
+            } else if !input_syms.is_empty() {
+                let e = gen_expr(ctx, rng, &gcfg, &input_syms, tpe, 2, stats);
+                if ctx[e].is_symbol() || matches!(ctx[e], Expr::BVLiteral(_)) || matches!(tpe, Type::Array(_)) { None } else { Some(e) }
+            } else {
+                None
+            };
+            if let Some(e) = src {
+                sys.add_state(ctx, State { symbol: *s, init: Some(e), next: Some(e) });
+                delay = Some((*s, e));
+                features.push(if ctx[e].is_symbol() { "delay-register-of-state(init==next)" } else { "init==next-input-expression" });
                 continue;
             }
         }
@@ -249,9 +275,53 @@ pub fn gen_mc_sys(ctx: &mut Context, rng: &mut Rng, cfg: &McCfg, stats: &mut Sta
     }
 
     // ---- bad states
-    let gate_depth: Option<u64> = if counter.is_some() && rng.chance(1, 2) { Some(rng.range(1, 6)) } else { None };
+    // a bad state that tells a delay register from a frozen one: the source minus the delayed copy is
+    // 0 or 1 for a counter (other sources: any comparison of the two)
+    let mut delay_depth: Option<u64> = None;
+    if let Some((p, src)) = delay {
+        if let Some(w) = p.get_bv_type(ctx) {
+            let e = if w >= 2 && rng.chance(5, 6) {
+                // a frozen copy makes this reachable, a real delay register (of a counter) does not
+                let diff = ctx.sub(src, p);
+                let lv = rng.range(2, ((1u64 << w) - 1).min(3));
+                delay_depth = Some(lv);
+                let lit = ctx.bv_lit(&baa::BitVecValue::from_u64(lv, w));
+                if rng.chance(1, 2) { ctx.equal(diff, lit) } else { ctx.greater_or_equal(diff, lit) }
+            } else {
+                // a real delay register can catch up with a source that stands still, a frozen copy cannot
+                let eq = ctx.equal(src, p);
+                let zero = ctx.bv_lit(&baa::BitVecValue::zero(w));
+                let moved = ctx.greater(src, zero);
+                if w >= 2 { ctx.and(eq, moved) } else { ctx.not(eq) }
+            };
+            sys.bad_states.push(e);
+            features.push("bad-compares-delay-with-source");
+        }
+    }
+    // the other bad states are often gated by a counter threshold; behind the directed delay bad when there is one
+    let gate_depth: Option<u64> = match (counter, delay_depth) {
+        (Some(_), Some(lv)) => Some(lv + rng.range(1, 2)),
+        (Some(_), None) if rng.chance(1, 2) => Some(rng.range(1, 6)),
+        _ => None,
+    };
     if gate_depth.is_some() {
         features.push("bads-gated-by-counter");
+    }
+    // operand order: cmp(c, B) with B = op(c, state), c and B both used twice (so both are serialized
+    // separately) and c the FIRST operand: the signal order must still put c before B
+    if !bv_states.is_empty() && rng.chance(1, 5) {
+        let st = *rng.pick(&bv_states);
+        let w = st.get_bv_type(ctx).unwrap();
+        let c = gen_expr(ctx, rng, &gcfg, &all_syms, Type::BV(w), 2, stats);
+        if !ctx[c].is_symbol() && !matches!(ctx[c], Expr::BVLiteral(_)) {
+            let bb = match rng.below(3) { 0 => ctx.xor(c, st), 1 => ctx.add(c, st), _ => ctx.sub(c, st) };
+            let first = match rng.below(3) { 0 => ctx.greater(c, bb), 1 => ctx.equal(c, bb), _ => ctx.greater_or_equal(c, bb) };
+            sys.bad_states.push(first);
+            let lit = ctx.bv_lit(&lit_value(rng, w));
+            let second = ctx.equal(bb, lit);
+            if rng.chance(1, 2) { sys.bad_states.push(second) } else { sys.constraints.push(ctx.not(second)) }
+            features.push("shared-operand-before-dependent-shared-operand");
+        }
     }
     let n_bads = rng.range(1, 3);
     for b in 0..n_bads {
@@ -357,7 +427,7 @@ pub fn gen_mc_sys(ctx: &mut Context, rng: &mut Rng, cfg: &McCfg, stats: &mut Sta
     }
     features.sort();
     features.dedup();
-    GenOut { sys, features, depth_hint: gate_depth }
+    GenOut { sys, features, depth_hint: delay_depth.or(gate_depth) }
 }
 
 // ---------------------------------------------------------------- directed systems
